@@ -51,6 +51,9 @@ def units(tier, seed):
                 nch = 1 if nfr < 3 else (8 if nfr == 3 else 16)
                 for k in range(nch):
                     u.append(dict(nfr=nfr, frame=frame, neg=neg, pats=[list(map(list, p)) for p in pats[k::nch]]))
+                # the same timeline at UTM-scale global coordinates (objects 1-2 m per frame at |x|, |y| of several 1e5 m)
+                if nfr == 2 and frame != "base_link_tilt" and not neg:
+                    u.append(dict(nfr=nfr, frame=frame, neg=neg, far=True, pats=[list(map(list, p)) for p in pats]))
     return u
 
 
@@ -69,7 +72,24 @@ def queries(seed, nfr):
 
 def run_unit(unit, acc):
     for pat in unit["pats"]:
-        check_case(dict(nfr=unit["nfr"], frame=unit["frame"], neg=unit["neg"], pres=pat, queries=queries(_SEED[0], unit["nfr"]), tols=TOLS), acc)
+        check_case(dict(nfr=unit["nfr"], frame=unit["frame"], neg=unit["neg"], pres=pat, queries=queries(_SEED[0], unit["nfr"]), tols=TOLS, far=bool(unit.get("far"))), acc)
+
+
+FAR = (-400000.0, 300000.0)   # UTM-scale global coordinates
+
+
+def _P(u, k, case=None):
+    x, y, yaw = POSE[u][k]
+    if case is not None and case.get("far"):
+        return (x + FAR[0], y + FAR[1], yaw)
+    return (x, y, yaw)
+
+
+def _E(k, case=None):
+    e = EGO[k]
+    if case is not None and case.get("far"):
+        return (e[0] + FAR[0], e[1] + FAR[1], e[2])
+    return e
 
 
 def _tilt_ego(k):
@@ -92,12 +112,12 @@ def _obj_tilt(u, k):
                          (1.0, 0.0, 0.0), 1.0, Label(AutowareLabel.CAR, "car", []), pointcloud_num=5, uuid=u)
 
 
-def _obj(u, k, frame, neg):
+def _obj(u, k, frame, neg, case=None):
     if frame == "base_link_tilt":
         return _obj_tilt(u, k)
-    x, y, yaw = POSE[u][k]
+    x, y, yaw = _P(u, k, case)
     if frame == "base_link":
-        x, y, yaw = geom.map_to_ego(x, y, yaw, EGO[k])
+        x, y, yaw = geom.map_to_ego(x, y, yaw, _E(k, case))
     return G.mk3d(dict(x=x, y=y, yaw=yaw, qneg=neg, uuid=u, label="CAR", vel=[1.0, 0.0, 0.0], size=[1.0, 2.0, 1.0], pts=5, t=TIMES[k]), "base_link", None) \
         if frame == "base_link" else G.mk3d(dict(x=x, y=y, yaw=yaw, qneg=neg, uuid=u, label="CAR", vel=[1.0, 0.0, 0.0], size=[1.0, 2.0, 1.0], pts=5, t=TIMES[k]), "map", (0.0, 0.0, 0.0))
 
@@ -106,8 +126,8 @@ def _frames(case):
     nfr = case["nfr"]
     out = []
     for k in range(nfr):
-        objs = [_obj(u, k, case["frame"], case["neg"] and k == 1) for ui, u in enumerate("ABC") if case["pres"][ui][k]]
-        out.append(F.frame_gt(objs, _tilt_ego(k) if case["frame"] == "base_link_tilt" else EGO[k], TIMES[k], str(k)))
+        objs = [_obj(u, k, case["frame"], case["neg"] and k == 1, case) for ui, u in enumerate("ABC") if case["pres"][ui][k]]
+        out.append(F.frame_gt(objs, _tilt_ego(k) if case["frame"] == "base_link_tilt" else _E(k, case), TIMES[k], str(k)))
     return out
 
 
@@ -206,12 +226,12 @@ def check_case(case, acc):
                         for u, (o,) in go.items():
                             p, y = _gpose(o, got)
                             if u in ub and u in ua:
-                                (xb, yb_, hb), (xa, ya_, ha) = POSE[u][bi], POSE[u][ai]
+                                (xb, yb_, hb), (xa, ya_, ha) = _P(u, bi, case), _P(u, ai, case)
                                 ep = (xb + al * (xa - xb), yb_ + al * (ya_ - yb_))
                                 eyaw = hb + al * geom.wrap(ha - hb)
                             else:
                                 k = bi if u in ub else ai
-                                ep, eyaw = POSE[u][k][:2], POSE[u][k][2]
+                                ep, eyaw = _P(u, k, case)[:2], _P(u, k, case)[2]
                             if abs(p[0] - ep[0]) > 1e-6 or abs(p[1] - ep[1]) > 1e-6:
                                 bad("interp:position", "object %s at %s, expected %s (alpha=%.4f)" % (u, p, ep, al))
                             if geom.adiff(y, eyaw) > 1e-6:
